@@ -53,7 +53,7 @@ def run_filter(ctx, name, gaussian, extra_kwargs=None):
 
 def lattice(axes, rng, count, radii):
     envs = []
-    for i in range(count):
+    for i in range(count * tm.N_MULT):
         env = {"__salt__": float(rng.uniform(0, 1))}
         for A in axes:
             for nm in tm.symbols(A.n):
